@@ -219,6 +219,15 @@ def cases(tier, seed):
                     (20, [("let", ("var", "R$"), ("fn", "STRING$", [("var", "N"), ("var", "A$")]), False)]),
                     (30, [("let", ("var", "Q$"), ("bin", "+", ("fn", "STRING$", [X.num(cnt), ("str", s)]), ("str", "!")), False)])]
             yield {"kind": "callsite", "what": "STRING$", "prog": prog}
+    # every numeric spelling, with and without an empty item in the program (the two READ paths)
+    spellings = [["1", "E", "-", "5"], ["2", "E", "-", "7"], ["1.25", "E", "-", "5"], ["1", "E", "20"], [".000001"], ["123456.789"],
+                 ["-", "1", "E", "-", "10"], ["1", "E", "3"], ["0.00004"], ["65535"], ["1.5", "E", "+", "2"], ["-", ".5"], ["12."], ["007"]]
+    for sp in spellings:
+        val = float("".join(sp))
+        for with_empty in (True, False):
+            items = ([("u", "")] if with_empty else []) + [("n", val, sp), ("n", 3.0, ["3"])]
+            tg = ([("var", "A")] if with_empty else []) + [("var", "B"), ("var", "C")]
+            yield {"kind": "callsite", "what": "READ-numeric-spelling", "prog": [(10, [("data", items)]), (20, [("read", tg)])]}
     for data in ([("n", 5.0, ["5"]), ("u", ""), ("n", 2.5, ["2.5"])], [("u", ""), ("u", ""), ("n", 7.0, ["7"])],
                  [("n", 1.0, ["1"]), ("u", ""), ("h", 255, "FF")], [("u", ""), ("q", "X"), ("n", 3.0, ["3"])]):
         tg = [("var", "A"), ("var", "B$" if data[1][0] == "q" else "B"), ("var", "C")]
